@@ -100,6 +100,9 @@ class SigmaNull(SigmaType):
     def __eq__(self, other: Any) -> bool:
         return isinstance(other, self.__class__)
 
+    def __repr__(self) -> str:  # no memory address: the value appears in error messages
+        return "SigmaNull()"
+
 
 @dataclass
 class SigmaExists(SigmaType):
